@@ -535,7 +535,7 @@ func main() {
 	fmt.Fprintf(&out, "def recoveryShapes : List (String × String) := [%s]\n", strings.Join(recov, ", "))
 	js["recoveryShapes"] = recov
 	var sts []string
-	for _, code := range []int{200, 400, 404, 418, 500, 503, 599, 0, 299} {
+	for code := 0; code < 600; code++ {
 		sts = append(sts, fmt.Sprintf("(%d, %d)", code, len(http.StatusText(code))))
 	}
 	fmt.Fprintf(&out, "def statusTextLens : List (Nat × Nat) := [%s]   -- len(http.StatusText(code)) of the Go toolchain in use\n", strings.Join(sts, ", "))
